@@ -8,6 +8,7 @@ CONSTANTS
   Stops = {FALSE}
   Modes = {"seq"}
   HookModes = {"all"}
+  Logging = FALSE
   Deviations = {"SkipFallbackUnbalanced","RepeatResetsStop"}
 CHECK_DEADLOCK FALSE
 INVARIANT Refines
